@@ -36,7 +36,8 @@ add("C02",
 
 add("C03",
     "property-based testing + exhaustive enumeration of class/easy sizes; exact-equality oracle "
-    "against the brute-force achievable extreme of the counting reference",
+    "against the brute-force achievable extreme of the counting reference (for 64-bit integer and "
+    "long-double scores: against the rate the object itself reports at the returned threshold)",
     "Exploration: extreme targets (r<=0, r>=1) on generated score sets for 6 metrics x 4 configs "
     "x 3 methods, exact float equality with the brute-force min/max of the metric; all size pairs "
     "(N<=300, easy<=60) enumerated in the thorough tier because the failure modes depend on "
@@ -65,7 +66,8 @@ add("C05",
 add("C06",
     "property-based testing: Hypothesis-generated tie-free score sets for the crossing relation "
     "and metamorphic (affine / negation) pairs; arbitrary tied and ulp-adjacent inputs for the "
-    "zero-EER implication",
+    "zero-EER implication; enumerated families of large / packed / barely inverted classes and "
+    "library-made subsamples as subjects, rates counted on the arrays",
     "Exploration: FPR(t) and FNR(t) by the same object within one sample of e, e <= min hard "
     "fraction, equivariance under increasing affine maps and direction reversal; for every input "
     "a reported EER of exactly 0 must come with FPR(t) = FNR(t) = 0.",
@@ -83,7 +85,7 @@ add("C07",
 add("C08",
     "property-based testing: metamorphic relations between pairs of executions (class swap, "
     "negation with flipped score_class, exact and general increasing affine maps) on "
-    "Hypothesis-generated score sets",
+    "Hypothesis-generated score sets, incl. score types wider than a double",
     "Exploration: swap() reverses every confusion matrix and exchanges the complementary rates "
     "exactly; negated objects give identical matrices at -t and negated linear thresholds; affine "
     "maps map all returned thresholds (3 methods) and leave matrices, AUC and (tie-free) EER "
@@ -121,7 +123,8 @@ add("C10",
 add("C11",
     "property-based testing: Hypothesis @given over (source, sampling configuration, RNG seed) "
     "with exact per-sample invariants, a Hypothesis state machine for sample-of-a-sample "
-    "histories, and a bounded-error statistical test of unbiasedness",
+    "histories, a bounded-error statistical test of unbiasedness, and enumerated families (600 draws "
+    "from sources with 1-3 scored samples per class; sources with an easy-only class)",
     "Exploration: every generated sample is checked for flags, class membership, sortedness, "
     "metrics = direct counting, at-least-one scored sample, total count, strata, proportion "
     "sizes / no replacement and the documented dynamic choice; unbiasedness (mean stratum sizes, "
